@@ -32,7 +32,7 @@ K(a, b, c) == a * 2000 + b * 40 + c
 (***************************************************************************)
 \* (names that merely START with a keyword -- notes, indexes_count, tables -- are ordinary bare identifiers)
 TableNames == <<"users", "Users", "orders", "order items", "table", "~u00dc~n~u00ef~", "Products", "t_1", "note", "ref", "notes", "tables", "123", "a  b", "t[1]", "products">>
-SchemaPool == <<"", "", "", "s1", "my schema", "public", "s1">>
+SchemaPool == <<"", "", "", "s1", "my schema", "public", "s1", "pub">>      \* ("pub": a piece of "public" is another schema)
 AliasPool  == <<"u", "O", "oi", "my alias", "a5", "P", "t1a", "n8", "r9", "al.ias">>      \* (an alias may contain a dot: it is one name)
 ColNames   == <<"id", "ID", "name", "user id", "note", "Note", "type", "~u540d~~u524d~", "Ref", "c_2", "default", "pk", "notes", "indexes_count", "ref_id", "1st", "0", "tags[]", "a^b", "`code`", "Id">>
 EnumNames  == <<"status", "Status", "order status", "enum", "~u00e9~tat", "e^2">>
